@@ -1,6 +1,8 @@
 package auto
 
 import (
+	"errors"
+
 	"go.pennock.tech/tabular"
 	"go.pennock.tech/tabular/csv"
 	"go.pennock.tech/tabular/json"
@@ -264,4 +266,42 @@ func VerifC14_sharedrow() {
 	vfSameSnap(b1, vfSnapshot(t1, key))
 	vfSameSnap(b2, vfSnapshot(t2, key))
 	vfObserveStr("out", out)
+}
+
+// VerifC14_between: what the caller does to the table between two renders stays done: an error
+// recorded (directly, or by misusing a separator row) after a first render is still listed after the
+// next render, in any pair of formats - among them the boxless text decoration, which draws no rules
+// for the table's separator rows.
+func VerifC14_between() {
+	key := &vfUserKey{11}
+	t := tabular.New()
+	t.AddHeaders("h1", "h2")
+	t.AddRowItems("a", "b")
+	t.AddSeparator()
+	t.AddRowItems("c", "d")
+	t.AddRowItems("e")
+	fmts := []int{0, 2, 3, 4 + 3, 4 + 2} // csv, markdown, html, text none (kept object), text utf8-heavy (fresh)
+	f1 := fmts[vfChoice("first", len(fmts))]
+	f2 := fmts[vfChoice("second", len(fmts))]
+	rs := &vfRenderers{t: t}
+	before := vfSnapshot(t, key)
+	out1, err1 := rs.render(f1)
+	vfAssert(err1 == nil, "render-ok")
+	vfSameSnap(before, vfSnapshot(t, key))
+	switch vfChoice("between", 3) {
+	case 1:
+		t.AddError(errors.New("recorded between renders"))
+		vfTag("error-recorded-between-renders")
+	case 2:
+		t.AllRows()[1].Add(tabular.NewCell("z")) // a cell for a separator row: refused, and recorded
+		vfTag("error-recorded-between-renders")
+	}
+	mid := vfSnapshot(t, key)
+	_, err2 := rs.render(f2)
+	vfAssert(err2 == nil, "render-ok")
+	vfSameSnap(mid, vfSnapshot(t, key))
+	again, err3 := rs.render(f1)
+	vfAssert(vfAnd(err3 == nil, again == out1), "same-bytes-as-first-render")
+	vfSameSnap(mid, vfSnapshot(t, key))
+	vfObserveStr("out", out1)
 }
